@@ -12,7 +12,9 @@ import json
 import re
 
 ID = "C05"
-RULE = ("layouts of 1-16 keep services with 0-3 mounts each (random stream) plus an exhaustive product over "
+RULE = ("layouts of 1-16 keep services with 0-3 mounts each (random stream), a 'concentrated' stream (3-6 services, "
+        "desired 2-4 with about that many replicas sitting on multi-mount servers with blank device ids, pulls "
+        "pending, read-only replica holders, one or two classes) plus an exhaustive product over "
         "<=3 services x <=2 mounts of structure x device sharing x class assignment x replica subset x desired "
         "replication 0-3 per class (thorough); read-only flags on mounts and services, replication 1-3 (rarely "
         "<=0), device ids blank/unique/shared across servers, mtimes old/new/colliding, random block hashes so "
@@ -412,6 +414,66 @@ def _random_case(rng, maxsvc):
     return fmt_case(_hash(rng), minm, svcs, reps, desired)
 
 
+def _concentrated_case(rng):
+    """High desired replication with just about enough replicas, concentrated on servers that have
+    several mounts (mostly blank device ids), many empty writable mounts elsewhere (pulls pending),
+    read-only flags on some replica holders, one or two classes: the regime where the second pass of
+    balanceBlock has work to do after the distinct-servers pass."""
+    minm = 1000
+    k = rng.randint(3, 6)
+    two = rng.random() < 0.5
+    svcs = []
+    ndev = 0
+    for si in range(k):
+        nm = rng.choice([1, 1, 2, 2, 3])
+        s = {"uuid": _svc_uuid(rng.randrange(10**9) * 100 + si), "ro": rng.random() < 0.05, "mounts": []}
+        for _ in range(nm):
+            if rng.random() < 0.8:
+                dev = ""
+            else:
+                ndev += 1
+                dev = "dev%d" % ndev
+            cls = []
+            if two:
+                cls = list(rng.choice([["a"], ["b"], ["a", "b"], ["b"], []]))
+            s["mounts"].append({"dev": dev, "ro": False, "repl": 1 if rng.random() < 0.85 else 2, "cls": cls})
+        svcs.append(s)
+    # keep the number of sort orders among equal slots small (see _random_case)
+    for s in svcs:
+        blanks = [m for m in s["mounts"] if not m["dev"]]
+        while len(blanks) > 2:
+            ndev += 1
+            blanks.pop()["dev"] = "uniq%d" % ndev
+    dmax = rng.choice([2, 3, 3, 3, 4])
+    want = max(1, dmax + rng.choice([-1, 0, 0, 0, 1]))
+    multi = [si for si, s in enumerate(svcs) if len(s["mounts"]) >= 2]
+    holders = []
+    if multi:
+        si = rng.choice(multi)
+        holders += [(si, mi) for mi in range(len(svcs[si]["mounts"]))]
+    allm = [(si, mi) for si, s in enumerate(svcs) for mi in range(len(s["mounts"]))]
+    rng.shuffle(allm)
+    for x in allm:
+        if len(holders) >= want:
+            break
+        if x not in holders:
+            holders.append(x)
+    reps = []
+    for si, mi in holders[:max(want, 1)]:
+        if rng.random() < 0.3:
+            svcs[si]["mounts"][mi]["ro"] = True
+        reps.append((si, mi, rng.choice([900, 900, 901, 950, 990, 999, 1000, 1001])))
+    rng.shuffle(reps)
+    if two:
+        desired = [("a", rng.choice([0, 1, 1, 2, dmax])), ("b", dmax)]
+        if rng.random() < 0.3:
+            desired.append(("default", rng.choice([0, 1, 2])))
+    else:
+        desired = [("default", dmax)]
+    rng.shuffle(desired)
+    return fmt_case(_hash(rng), minm, svcs, reps, desired)
+
+
 def _malformed(rng, good):
     f = good.split(" ")
     r = rng.randrange(10)
@@ -539,9 +601,13 @@ def generate(rng, tier):
         specs4 = [sp for sp in itertools.islice(exhaustive_specs(6), 0, None, 997)]
         for sp in rng.sample(specs4, min(len(specs4), 700)):
             cases.append(_spec_case(rng, sp))
+        for _ in range(2500):
+            cases.append(_concentrated_case(rng))
     else:
         for _ in range(150000):
             cases.append(_random_case(rng, 16))
+        for _ in range(100000):
+            cases.append(_concentrated_case(rng))
         # exhaustive over structure x sharing x classes x replica subset x desired for <= 5 mounts
         # (454 502 combinations), every 3rd combination (offset by the seed) for 6 mounts (1 217 360);
         # flags, replication, mtimes and the block hash are drawn at random for each combination
